@@ -247,3 +247,20 @@ func VH_c05_upd_all() {
 	c05afterUpdate(m, err, opt)
 	vReach("end")
 }
+
+// per-family NLRI entry point for the FlowSpec families (bgp.NLRIFromSlice): every buffer up to n
+// octets either decodes or is refused - within the unwinding bound, i.e. the component loop makes
+// progress on every input (a component that reports a zero length would never be passed) - and a
+// decoded NLRI can be measured and serialised.
+func VH_c05_nlri_flowspec() {
+	fam := []Family{RF_FS_IPv4_UC, RF_FS_IPv6_UC, RF_FS_IPv4_VPN, RF_FS_L2_VPN}[vParam("family")]
+	buf := vBytes("nlri", vParam("n"), 4)
+	n, err := NLRIFromSlice(fam, buf)
+	if err == nil {
+		vAssert(n != nil, "NLRIFromSlice returned neither a value nor an error")
+		_ = n.Len()
+		_, _ = n.Serialize()
+		vReach("ok")
+	}
+	vReach("end")
+}
